@@ -40,6 +40,9 @@ Issue(fn) == /\ steps < MaxSteps /\ fn \in Fns
              /\ issued' = Append(issued, [fn |-> fn, kl |-> Handed])
              /\ Use /\ steps' = steps + 1 /\ UNCHANGED loc
 
+\* the application re-reads the certificates it was handed earlier (it kept the returned buffers and names):
+\* they are what they were (nothing the signer or the library does later may change them)
+Recheck == UNCHANGED vars
 Next == (\E l \in 1..NLoc : SetLocator(l)) \/ SignData \/ (\E fn \in Fns : Issue(fn))
 Spec == Init /\ [][Next]_vars
 
